@@ -33,6 +33,9 @@ type Scenario struct {
 	ExecErr    bool     `json:"execErr"`
 	Env        []EnvKV  `json:"env"`
 	Argv       []S      `json:"argv"`
+	Completion S        `json:"completion"` // value of GO_FLAGS_COMPLETION ("" = unset)
+	HasPrelude bool     `json:"hasPrelude"` // a first ParseArgs(prelude) runs on the same parser before the judged call
+	Prelude    []S      `json:"prelude"`
 	Tags       []string `json:"tags"`          // what the generator intended (evidence / sampling only)
 	Alt        []S      `json:"alt,omitempty"` // C02: the same vector with one occurrence respelled
 	AltInfo    *AltInfo `json:"altInfo,omitempty"`
@@ -140,6 +143,14 @@ func obsValue(o *OptNode, f reflect.Value) []any {
 	case "counter", "slice":
 		for i := 0; i < f.Len(); i++ {
 			out = append(out, toS(atomText(f.Index(i))))
+		}
+	case "sliceptr":
+		for i := 0; i < f.Len(); i++ {
+			if f.Index(i).IsNil() {
+				out = append(out, toS("<nil>"))
+			} else {
+				out = append(out, toS(atomText(f.Index(i).Elem())))
+			}
 		}
 	case "map":
 		keys := f.MapKeys()
@@ -359,6 +370,25 @@ func runArgparse(t *Tree, sc *Scenario, argv []S) (obs *Obs) {
 	for i, a := range argv {
 		args[i] = a.String()
 	}
+	if sc.HasPrelude {
+		pre := make([]string, len(sc.Prelude))
+		for i, a := range sc.Prelude {
+			pre[i] = a.String()
+		}
+		so, se := os.Stdout, os.Stderr
+		os.Stdout, os.Stderr = capOut, capErr
+		func() {
+			defer func() { recover() }()
+			p.ParseArgs(pre)
+		}()
+		os.Stdout, os.Stderr = so, se
+		b.log.evs = nil
+	}
+	if len(sc.Completion) > 0 {
+		os.Setenv("GO_FLAGS_COMPLETION", sc.Completion.String())
+		defer os.Unsetenv("GO_FLAGS_COMPLETION")
+		p.CompletionHandler = func(items []flags.Completion) {}
+	}
 
 	capReset(capOut)
 	capReset(capErr)
@@ -438,6 +468,14 @@ func (b *Built) fillState(obs *Obs) {
 	for _, pp := range b.pptrs {
 		if !pp.IsNil() {
 			obs.Untouched = false
+		}
+	}
+	// a second reference to the backing array of a preset slice must still see the preset elements
+	for _, al := range b.aliases {
+		for i, want := range al.want {
+			if i >= al.alias.Len() || atomText(al.alias.Index(i)) != want {
+				obs.Untouched = false
+			}
 		}
 	}
 	// IsSet per option through the public model
